@@ -254,7 +254,14 @@ func TestConcurrent(t *testing.T) {
 				for i, s := range seeds {
 					alone[i] = workload(s, i%2 == 0)
 					if alone[i].err != nil {
-						t.Fatalf("harness: workload alone failed: %v", alone[i].err)
+						// against a conforming BMC a workload run on its own always
+						// succeeds; one retry rules out a lost loopback datagram
+						alone[i] = workload(s, i%2 == 0)
+					}
+					if alone[i].err != nil {
+						msg := fmt.Sprintf("workload %d (seed %d) fails even when run on its own, after other connections were used in this process: %v (state shared between connections)", i, s, alone[i].err)
+						ev.Violation("TestConcurrent", map[string]any{"n": n, "gomaxprocs": gp, "seeds": seeds, "worker": i}, msg)
+						t.Fatalf("%s", msg)
 					}
 				}
 				// concurrently
